@@ -5,7 +5,9 @@ Every writer takes the payload bytes (and options) and returns the archive bytes
 Library encoders: zlib (raw deflate), bz2, lzma, zipfile.  Own writers: gzip member header
 (FTEXT/FHCRC/FEXTRA/FNAME/FCOMMENT), compress(1) LZW 9..16 bit (block mode, CLEAR codes),
 LHA -lh0- header levels 0/1/2, ARC/Spark stored + RLE90 (methods 1/2/3, 0x82/0x83), ArcFS stored/RLE90,
-LZX stored, PowerPacker PP20 (literals + matches), MMCMP stored blocks.
+LZX stored, PowerPacker PP20 (literals + matches), MMCMP stored + bit-packed blocks, LHA -lh4-/-lh5-/-lh6-/-lh7-
+(LZ77 incl. matches into the blank dictionary in front of the file + static Huffman blocks), ARC squeeze (Huffman node
+table over RLE90), ARC crunch / squash / Spark compress (LZW 9..16 bit in groups of 8 codes).
 """
 import bz2
 import io
@@ -254,27 +256,29 @@ def _dos_time():
     return struct.pack("<I", (16 << 25) | (1 << 21) | (1 << 16))
 
 
-def lha_member(name, data, level=0, method=b"-lh0-", osid=b"U"):
+def lha_member(name, data, level=0, method=b"-lh0-", osid=b"U", packed=None):
+    """`packed`: the compressed stream of `data` for the methods -lh4- .. -lh7- (see lh_new_encode)"""
     nm = name.encode("latin-1") if isinstance(name, str) else name
     crc = crc16_fast(data)
+    cdata = data if packed is None else packed
     if level == 0:
-        body = method + struct.pack("<II", len(data), len(data)) + _dos_time() + bytes([0x20, 0]) + \
+        body = method + struct.pack("<II", len(cdata), len(data)) + _dos_time() + bytes([0x20, 0]) + \
             bytes([len(nm)]) + nm + struct.pack("<H", crc)
-        return bytes([len(body), sum(body) & 0xff]) + body + data
+        return bytes([len(body), sum(body) & 0xff]) + body + cdata
     if level == 1:
-        body = method + struct.pack("<II", len(data), len(data)) + _dos_time() + bytes([0x20, 1]) + \
+        body = method + struct.pack("<II", len(cdata), len(data)) + _dos_time() + bytes([0x20, 1]) + \
             bytes([len(nm)]) + nm + struct.pack("<H", crc) + osid + struct.pack("<H", 0)
-        return bytes([len(body), sum(body) & 0xff]) + body + data
+        return bytes([len(body), sum(body) & 0xff]) + body + cdata
     if level == 2:
         ext = struct.pack("<H", 3 + len(nm)) + b"\x01" + nm + struct.pack("<H", 0)
-        fixed = method + struct.pack("<II", len(data), len(data)) + struct.pack("<I", 820454400) + \
+        fixed = method + struct.pack("<II", len(cdata), len(data)) + struct.pack("<I", 820454400) + \
             bytes([0x20, 2]) + struct.pack("<H", crc) + osid
         total = 2 + len(fixed) + len(ext)
         pad = b""
         if total & 0xff == 0:
             pad = b"\0"
             total += 1
-        return struct.pack("<H", total) + fixed + ext + pad + data
+        return struct.pack("<H", total) + fixed + ext + pad + cdata
     raise ValueError(level)
 
 
@@ -293,14 +297,280 @@ def lha_dir(name, level=1):
 
 
 def lha_archive(members, level=0, osid=b"U"):
-    """members: list of (name, data) ; name ending in '/' = directory entry."""
+    """members: list of (name, data) or (name, data, method, packed); name ending in '/' = directory entry."""
     out = b""
-    for name, data in members:
+    for m in members:
+        name, data = m[0], m[1]
         if name.endswith("/"):
             out += lha_dir(name, 1 if level else 0)
+        elif len(m) > 2:
+            out += lha_member(name, data, level, method=m[2], osid=osid, packed=m[3])
         else:
             out += lha_member(name, data, level, osid=osid)
     return out + b"\0"
+
+
+# ------------------------------------------------------------------ LHA -lh4- / -lh5- / -lh6- / -lh7- ("new" static Huffman)
+# Format (LHA 2.x, H. Okumura's ar002): LZ77 over a sliding dictionary that is defined to contain BLANKS (0x20) before
+# the first byte of the file -- a match may reach back before byte 0 -- then, per block of up to 65535 commands, three
+# canonical Huffman tables (code lengths of the code-length alphabet, code lengths of the 510 literal/length codes
+# written with that alphabet and zero-run codes, code lengths of the offset-width alphabet) followed by the commands.
+# Bits are written MSB first.
+LH_NEW = {b"-lh4-": (1 << 12, 4), b"-lh5-": (1 << 13, 4), b"-lh6-": (1 << 15, 5), b"-lh7-": (1 << 16, 5)}
+
+
+class _BitWM:
+    """MSB-first bit writer"""
+    def __init__(s):
+        s.out = bytearray()
+        s.acc = 0
+        s.n = 0
+
+    def put(s, v, nb):
+        if nb == 0:
+            return
+        assert 0 <= v < (1 << nb), (v, nb)
+        s.acc = (s.acc << nb) | v
+        s.n += nb
+        while s.n >= 8:
+            s.n -= 8
+            s.out.append((s.acc >> s.n) & 0xff)
+        s.acc &= (1 << s.n) - 1
+
+    def done(s):
+        if s.n:
+            s.out.append((s.acc << (8 - s.n)) & 0xff)
+            s.n = 0
+            s.acc = 0
+        return bytes(s.out)
+
+
+def huff_lengths(freq, limit=16):
+    """code lengths of a Huffman code for the symbols with freq > 0 (at least two), no length above `limit`"""
+    import heapq
+    f = list(freq)
+    while True:
+        heap = [(x, i, (i,)) for i, x in enumerate(f) if x]
+        assert len(heap) >= 2
+        heapq.heapify(heap)
+        depth = [0] * len(f)
+        tie = len(f)
+        while len(heap) > 1:
+            a = heapq.heappop(heap)
+            b = heapq.heappop(heap)
+            for sy in a[2] + b[2]:
+                depth[sy] += 1
+            heapq.heappush(heap, (a[0] + b[0], tie, a[2] + b[2]))
+            tie += 1
+        if max(depth) <= limit:
+            return depth
+        f = [(x + 1) // 2 if x else 0 for x in f]
+
+
+def canonical_codes(lengths):
+    """canonical prefix code: shorter codes first, equal lengths in symbol order, numerically increasing"""
+    codes = {}
+    code = 0
+    last = 0
+    for ln, sy in sorted((l, i) for i, l in enumerate(lengths) if l):
+        code <<= (ln - last)
+        last = ln
+        codes[sy] = (code, ln)
+        code += 1
+    return codes
+
+
+def lz_tokens(data, dict_size, rng=None, max_match=256, prefile=b" ", chain=8, skip_prob=0.0):
+    """greedy LZ77: tokens are ints (literal) or (offset, length) with source start = position - offset - 1; with
+    `prefile` the dictionary in front of the file consists of that byte and matches may start there"""
+    pre = prefile * dict_size if prefile else b""
+    buf = pre + data
+    base = len(pre)
+    n = len(buf)
+    heads = {}
+    if pre:
+        cands = sorted(set(q for q in (0, base - 4097, base - 300, base - 256, base - 17, base - 3, base - 2, base - 1) if 0 <= q < base))
+        for q in cands:
+            if q + 3 <= n:
+                heads.setdefault(buf[q:q + 3], []).append(q)
+    toks = []
+    i = base
+    while i < n:
+        best_len, best_d = 0, 0
+        if i + 3 <= n:
+            cl = heads.get(buf[i:i + 3])
+            if cl:
+                lim = min(max_match, n - i)
+                tried = 0
+                for q in reversed(cl):
+                    d = i - q
+                    if d > dict_size:
+                        break
+                    ln = 3
+                    while ln < lim and buf[q + ln] == buf[i + ln]:
+                        ln += 1
+                    if ln > best_len or (ln == best_len and rng is not None and rng.random() < 0.3):
+                        best_len, best_d = ln, d
+                    tried += 1
+                    if tried >= chain:
+                        break
+        if best_len >= 3 and not (skip_prob and rng is not None and rng.random() < skip_prob):
+            if rng is not None and best_len > 3 and rng.random() < 0.1:
+                best_len = rng.randint(3, best_len)
+            toks.append((best_d - 1, best_len))
+            step = best_len
+        else:
+            toks.append(buf[i])
+            step = 1
+        for k in range(i, i + step):
+            if k + 3 <= n:
+                heads.setdefault(buf[k:k + 3], []).append(k)
+        i += step
+    return toks
+
+
+def lz_expand(toks, prefile=b" "):
+    """reference expansion of a token list (used to referee the tokenizer)"""
+    out = bytearray()
+    for t in toks:
+        if isinstance(t, int):
+            out.append(t)
+        else:
+            off, ln = t
+            for _ in range(ln):
+                q = len(out) - off - 1
+                out.append(out[q] if q >= 0 else prefile[0])
+    return bytes(out)
+
+
+def _lh_put_len(w, k):
+    if k < 7:
+        w.put(k, 3)
+    else:
+        w.put(7, 3)
+        for _ in range(k - 7):
+            w.put(1, 1)
+        w.put(0, 1)
+
+
+def lh_new_block(w, toks, offset_bits, rng=None):
+    """one block: command count, the three tables, the commands"""
+    NC = 510
+    cfreq = [0] * NC
+    pfreq = [0] * ((1 << offset_bits) - 1)
+    for t in toks:
+        if isinstance(t, int):
+            cfreq[t] += 1
+        else:
+            off, ln = t
+            cfreq[256 + ln - 3] += 1
+            pfreq[off.bit_length()] += 1
+    w.put(len(toks), 16)
+    # literal/length code
+    used = [i for i, x in enumerate(cfreq) if x]
+    if len(used) == 1:
+        clen, ccode = None, {used[0]: (0, 0)}
+    else:
+        clen = huff_lengths(cfreq, 16)
+        ccode = canonical_codes(clen)
+    if clen is None:
+        # temp table: a single code of length zero, then the code table likewise
+        w.put(0, 5)
+        w.put(0, 5)
+        w.put(0, 9)
+        w.put(used[0], 9)
+    else:
+        n = max(used) + 1
+        # run-length symbols of the code-length alphabet: 0 = one zero, 1 = 3..18 zeros, 2 = 20.. zeros, k+2 = length k
+        syms = []
+        i = 0
+        compact = rng is None or rng.random() < 0.8
+        while i < n:
+            k = clen[i]
+            i += 1
+            if k:
+                syms.append((k + 2, None))
+                continue
+            cnt = 1
+            while i < n and clen[i] == 0:
+                i += 1
+                cnt += 1
+            if not compact or cnt <= 2:
+                syms += [(0, None)] * cnt
+            elif cnt <= 18:
+                syms.append((1, (cnt - 3, 4)))
+            elif cnt == 19:
+                syms.append((0, None))
+                syms.append((1, (15, 4)))
+            else:
+                syms.append((2, (cnt - 20, 9)))
+        tfreq = [0] * 19
+        for sy, _ in syms:
+            tfreq[sy] += 1
+        tused = [i for i, x in enumerate(tfreq) if x]
+        if len(tused) == 1:
+            w.put(0, 5)
+            w.put(tused[0], 5)
+            tcode = {tused[0]: (0, 0)}
+        else:
+            tlen = huff_lengths(tfreq, 16)
+            tcode = canonical_codes(tlen)
+            tn = max(tused) + 1
+            w.put(tn, 5)
+            i = 0
+            while i < tn:
+                _lh_put_len(w, tlen[i])
+                i += 1
+                if i == 3:
+                    z = 0
+                    while i < 6 and i < 19 and tlen[i] == 0 and z < 3:
+                        i += 1
+                        z += 1
+                    w.put(z, 2)
+        w.put(n, 9)
+        for sy, extra in syms:
+            w.put(*tcode[sy])
+            if extra:
+                w.put(*extra)
+    # offset-width code
+    pused = [i for i, x in enumerate(pfreq) if x]
+    if len(pused) <= 1:
+        w.put(0, offset_bits)
+        w.put(pused[0] if pused else 0, offset_bits)
+        pcode = {pused[0]: (0, 0)} if pused else {}
+    else:
+        plen = huff_lengths(pfreq, 16)
+        pcode = canonical_codes(plen)
+        pn = max(pused) + 1
+        w.put(pn, offset_bits)
+        for i in range(pn):
+            _lh_put_len(w, plen[i])
+    for t in toks:
+        if isinstance(t, int):
+            w.put(*ccode[t])
+        else:
+            off, ln = t
+            w.put(*ccode[256 + ln - 3])
+            nb = off.bit_length()
+            w.put(*pcode[nb])
+            if nb > 1:
+                w.put(off - (1 << (nb - 1)), nb - 1)
+
+
+def lh_new_encode(data, method=b"-lh5-", rng=None, block_cmds=None, prefile=True, toks=None):
+    """-lh4-/-lh5-/-lh6-/-lh7- stream of `data`; returns (stream, tokens)"""
+    dict_size, offset_bits = LH_NEW[method]
+    if toks is None:
+        toks = lz_tokens(data, dict_size, rng, prefile=b" " if prefile else b"", skip_prob=0.03 if rng else 0.0)
+    assert lz_expand(toks) == data
+    if block_cmds is None:
+        block_cmds = rng.choice([0xffff, 0xffff, 4000, 300, 7, 1]) if rng else 0xffff
+    if len(toks) // block_cmds > 3000:
+        block_cmds = 0xffff
+    w = _BitWM()
+    for i in range(0, len(toks), block_cmds):
+        lh_new_block(w, toks[i:i + block_cmds], offset_bits, rng)
+    return w.done(), toks
 
 
 # ------------------------------------------------------------------ ARC / Spark, RLE90
@@ -330,17 +600,216 @@ def rle90_encode(p, max_run=255, literal_only=False):
     return bytes(out)
 
 
+# ------------------------------------------------------------------ ARC squeeze (method 4): Huffman over the RLE90 stream
+# Format (SQ/USQ by R. Greenlaw as used by ARC): 16-bit node count, then per node two signed 16-bit children: a value >= 0
+# is the index of another node, a negative value -(sym + 1) is a leaf; symbol 256 is the end-of-file marker (SPEOF) that
+# ends the stream.  257 symbols => at most 256 nodes.  Code bits are written LSB first, bit 0 = left (first) child.
+def squeeze_tree(freq, rng=None, shape="huffman"):
+    """freq: 257 counts (EOF included, every count > 0 is a leaf).  Returns nested tree: int leaf | (left, right)."""
+    import heapq
+    syms = [i for i, x in enumerate(freq) if x]
+    assert 256 in syms
+    if len(syms) == 1:
+        return (256, 256)            # a file without data: both branches of the only node end the stream
+    if shape == "huffman":
+        f = list(freq)
+        while True:
+            heap = [(f[sy], n, sy) for n, sy in enumerate(syms)]
+            heapq.heapify(heap)
+            tie = len(heap)
+            while len(heap) > 1:
+                a = heapq.heappop(heap)
+                b = heapq.heappop(heap)
+                heapq.heappush(heap, (a[0] + b[0], tie, (a[2], b[2])))
+                tie += 1
+            tree = heap[0][2]
+
+            def depth(t):
+                return 0 if isinstance(t, int) else 1 + max(depth(t[0]), depth(t[1]))
+            if depth(tree) <= 16:
+                return tree
+            f = [(x + 1) // 2 if x else 0 for x in f]      # SQ rescales the counts until no code is longer than 16 bits
+    # any full binary tree over the used symbols is a legal code table: random shape
+    items = list(syms)
+    rng.shuffle(items)
+    while len(items) > 1:
+        if shape == "chain":
+            i = 0
+        else:
+            i = rng.randrange(len(items) - 1)
+        a = items.pop(i)
+        b = items.pop(i)
+        items.insert(i if shape != "chain" else 0, (a, b) if rng.random() < 0.5 else (b, a))
+    return items[0]
+
+
+def squeeze_table(tree, rng=None, order="bfs"):
+    """node table of the tree (root = node 0) and the code (bit list) of every symbol"""
+    nodes = []       # [left, right] with ints: >= 0 node index, < 0 leaf
+    codes = {}
+    pending = [(tree, None, None, [])]
+    while pending:
+        t, parent, side, path = pending.pop(0 if order == "bfs" else -1)
+        idx = len(nodes)
+        nodes.append([None, None])
+        if parent is not None:
+            nodes[parent][side] = idx
+        for sd in (0, 1):
+            ch = t[sd]
+            if isinstance(ch, int):
+                nodes[idx][sd] = -(ch + 1)
+                codes.setdefault(ch, path + [sd])
+            else:
+                pending.append((ch, idx, sd, path + [sd]))
+    return nodes, codes
+
+
+def squeeze_encode(data, rng=None, shape="huffman", order=None, rle=True):
+    """ARC method 4 stream of `data`"""
+    src = rle90_encode(data) if rle else data
+    freq = [0] * 257
+    for b in src:
+        freq[b] += 1
+    freq[256] = 1
+    tree = squeeze_tree(freq, rng, shape)
+    nodes, codes = squeeze_table(tree, rng, order or (rng.choice(["bfs", "dfs"]) if rng else "bfs"))
+    assert len(nodes) <= 256
+    out = bytearray(struct.pack("<H", len(nodes)))
+    for l, r in nodes:
+        out += struct.pack("<hh", l, r)
+    acc = 0
+    n = 0
+    for sy in list(src) + [256]:
+        for bit in codes[sy]:
+            acc |= bit << n
+            n += 1
+            if n == 8:
+                out.append(acc)
+                acc = 0
+                n = 0
+    if n:
+        out.append(acc)
+    return bytes(out)
+
+
+# ------------------------------------------------------------------ ARC crunch (8) / squash (9) / Spark compress (0xff): LZW
+# Format (ARC 5+ "dynamic LZW", the compress 4.0 scheme): codes start 9 bits wide and grow to `maxbits`; code 256 resets
+# the table; new entries start at 257; codes are written LSB first in groups of 8 codes and the rest of a group is
+# padding whenever the code width changes.  Crunch: RLE90 first, one leading byte (12); squash: 13 bits, no RLE, no
+# leading byte; Spark "compress": leading byte = maxbits, no RLE.
+def arc_lzw(src, maxbits=12, reset_every=0, rng=None, stats=None):
+    """LZW code stream; `reset_every` > 0: once the table is full a reset code follows after that many further codes.
+    `stats` (dict) receives the input positions at which the code width grew and at which the table became full."""
+    out = bytearray()
+    acc = 0
+    nacc = 0
+    group = 0                # codes written in the current group of 8
+    width = 9
+    maxcode = 1 << maxbits
+    dec_next = 257           # the decoder's next free entry
+    have_last = False
+    events = []
+
+    def put(code):
+        nonlocal acc, nacc, group
+        acc |= code << nacc
+        nacc += width
+        while nacc >= 8:
+            out.append(acc & 0xff)
+            acc >>= 8
+            nacc -= 8
+        group = (group + 1) % 8
+
+    def pad_group():
+        nonlocal group
+        while group:
+            put(0)
+        assert nacc == 0
+
+    def emit(code, pos):
+        nonlocal width, dec_next, have_last
+        put(code)
+        if have_last and dec_next < maxcode:
+            dec_next += 1
+            if dec_next == maxcode:
+                events.append(("full", pos))
+            if dec_next >= (1 << width) and width < maxbits:
+                pad_group()
+                width += 1
+                events.append(("width%d" % width, pos))
+        have_last = True
+
+    table = {}
+    free = 257
+    since_full = 0
+    if src:
+        ent = src[0]
+        for pos in range(1, len(src)):
+            c = src[pos]
+            key = (ent << 8) | c
+            got = table.get(key)
+            if got is not None:
+                ent = got
+                continue
+            emit(ent, pos)
+            if free < maxcode:
+                table[key] = free
+                free += 1
+            elif reset_every:
+                since_full += 1
+                if since_full >= reset_every:
+                    put(256)
+                    if width != 9:
+                        pad_group()
+                        width = 9
+                    dec_next = 257
+                    have_last = False
+                    table = {}
+                    free = 257
+                    since_full = 0
+                    events.append(("reset", pos))
+            ent = c
+        emit(ent, len(src))
+    if nacc:
+        out.append(acc & 0xff)
+    if stats is not None:
+        stats["events"] = events
+    return bytes(out)
+
+
+def arc_crunch(data, reset_every=0, stats=None):
+    return bytes([12]) + arc_lzw(rle90_encode(data), 12, reset_every, stats=stats)
+
+
+def arc_squash(data, reset_every=0, stats=None):
+    return arc_lzw(data, 13, reset_every, stats=stats)
+
+
+def spark_compress(data, maxbits=16, reset_every=0, stats=None):
+    return bytes([maxbits]) + arc_lzw(data, maxbits, reset_every, stats=stats)
+
+
 def arc_name(name):
     nm = name.encode("latin-1")[:12]
     return nm + b"\0" * (13 - len(nm))
 
 
-def arc_entry(name, data, method=2, spark=False):
+def arc_entry(name, data, method=2, spark=False, packed=None):
     m = method & 0x7f
-    if m in (1, 2):
+    if packed is not None:
+        cdata = packed
+    elif m in (1, 2):
         cdata = data
     elif m == 3:
         cdata = rle90_encode(data)
+    elif m == 4:
+        cdata = squeeze_encode(data)
+    elif m == 8:
+        cdata = arc_crunch(data)
+    elif m == 9:
+        cdata = arc_squash(data)
+    elif m == 0x7f:
+        cdata = spark_compress(data)
     else:
         raise ValueError(method)
     h = bytes([0x1a, (method | 0x80) if spark else method]) + arc_name(name) + struct.pack("<I", len(cdata)) + \
@@ -353,10 +822,10 @@ def arc_entry(name, data, method=2, spark=False):
 
 
 def arc_archive(members, spark=False):
-    """members: list of (name, data, method)."""
+    """members: list of (name, data, method) or (name, data, method, packed stream)."""
     out = b""
-    for name, data, method in members:
-        out += arc_entry(name, data, method, spark)
+    for m in members:
+        out += arc_entry(m[0], m[1], m[2], spark, packed=m[3] if len(m) > 3 else None)
     return out + bytes([0x1a, 0x80 if spark else 0x00])
 
 
@@ -368,7 +837,7 @@ def arc_tree(nodes, spark=False, top=True):
     out = b""
     for n in nodes:
         if n[0] == "file":
-            out += arc_entry(n[1], n[2], n[3], spark)
+            out += arc_entry(n[1], n[2], n[3], spark, packed=n[4] if len(n) > 4 else None)
         else:
             nested = arc_tree(n[2], spark, top=False)
             if spark:
@@ -385,19 +854,38 @@ def arc_tree(nodes, spark=False, top=True):
 
 # ------------------------------------------------------------------ ArcFS
 def arcfs_archive(members, pad_entries=0):
-    """members: list of (name(<=11), data, method) with method 0x82 stored / 0x83 packed."""
+    """members: list of (name(<=11), data, method[, packed stream[, code bits]]) with method 0x82 stored / 0x83 packed /
+    0x84 squeezed / 0x88 crunched / 0x89 squashed / 0xff compressed."""
     n = len(members) + pad_entries
     entries_len = 36 * n
     data_offset = 96 + entries_len
     hdr = b"Archive\0" + struct.pack("<IIIII", entries_len, data_offset, 260, 260, 0x0a) + b"\0" * 68
     ent = b""
     blob = b""
-    for name, data, method in members:
+    for mem in members:
+        name, data, method = mem[0], mem[1], mem[2]
         m = method & 0x7f
-        cdata = data if m == 2 else rle90_encode(data)
+        bits = 0
+        if len(mem) > 3:
+            cdata = mem[3]
+            bits = mem[4] if len(mem) > 4 else 0
+        elif m == 2:
+            cdata = data
+        elif m == 3:
+            cdata = rle90_encode(data)
+        elif m == 4:
+            cdata = squeeze_encode(data)
+        elif m == 8:
+            cdata, bits = arc_lzw(rle90_encode(data), 12), 12     # ArcFS keeps the code width in the attributes, not in the stream
+        elif m == 9:
+            cdata = arc_squash(data)
+        elif m == 0x7f:
+            cdata, bits = arc_lzw(data, 16), 16
+        else:
+            raise ValueError(method)
         nm = name.encode("latin-1")[:11]
         nm = nm + b"\0" * (11 - len(nm))
-        attr = (crc16_fast(data) << 16) | (0 << 8) | 0x03
+        attr = (crc16_fast(data) << 16) | (bits << 8) | 0x03
         e = bytes([method]) + nm + struct.pack("<I", len(data)) + struct.pack("<II", 0xfffffd00, 0) + \
             struct.pack("<I", attr) + struct.pack("<I", len(cdata)) + struct.pack("<I", len(blob))
         assert len(e) == 36
